@@ -251,6 +251,12 @@ func (r *Result) WriteEvidence(dir string, cmd string) error {
 		}
 		byRule[o.Rule]++
 	}
+	if os.Getenv("VCHECK_DUMP") != "" {
+		for _, o := range r.Obs {
+			b, _ := json.Marshal(o)
+			fmt.Fprintln(os.Stderr, "OBL", string(b))
+		}
+	}
 	samples := []any{}
 	// samples: every non-holding obligation, plus up to 12 holding ones spread across rules
 	perRule := map[string]int{}
